@@ -78,7 +78,7 @@ def main():
     mine = {f: c for f, c in contracts.items() if c.prop == prop}
     ledger_all = None
     known_file = load_json('known_findings.json', {'findings': [], 'fixed': []})
-    known = {k['id']: k for k in known_file.get('findings', []) if k.get('property') == prop}
+    known = {k['id']: k for k in known_file.get('findings', []) if k.get('property') == prop or prop in k.get('also', [])}
     ledger = load_json(f'ledger/{prop}.json', {})
     lines = []
     violations = []
@@ -374,6 +374,15 @@ EXPLAIN = {
     'C19': 'Frames and history independence of the ten read-only operations proved by the effect analysis; random attribute generation bounded.',
     'C20': 'Feature equality/hash/order laws proved; the sorted()/frozenset/str based equalities are bounded.',
     'C17': 'Totality and size/ratio clauses of the list-cache metric methods, frames of all metric methods and history independence proved; the 40 metric definitions and identities are bounded.',
+    'C01': 'Quoting lemma of the UVL writer proved for all strings; writer purity; the round trip itself is bounded.',
+    'C02': 'The model-side mutators used by every reader are proved (owner adoption, exact growth of the lists, frames); reader walks are bounded.',
+    'C04': 'set_parse_tree cannot return normally with a recorded syntax error (proved); the parse-tree walk is bounded against an independent emitter.',
+    'C05': 'unquote(safename(s)) == s proved for every string; writer purity; the round trip itself is bounded.',
+    'C06': 'Writer purity proved; the AFM round trip is bounded.',
+    'C07': 'Writer purity proved; the FeatureIDE round trip is bounded.',
+    'C08': 'Writer purity proved; the Glencoe round trip is bounded.',
+    'C10': 'Purity of both exports proved (CNF chain proved under C18); the denotation of the exports is decided by independent interpreters (bounded).',
+    'C11': 'Writer purity proved; the denotation of the Clafer export is decided by an independent interpreter (bounded).',
     'C12': 'Purity, determinism primitives, return-what-was-written and UTF-8 call sites proved on the source of the eight writers; byte-identity across processes is configuration sampling (bounded).',
     'C03': 'Every query function of models/feature_model.py under contract is proved equal to its specification function '
            '(rel_class, rels, feats, children, feature_class) for all well-formed heaps, unbounded in size.',
